@@ -312,6 +312,13 @@ func genFaulty(t *rapid.T) pairsim.Scenario {
 			if len(earlierUp) > 0 && rapid.IntRange(0, 2).Draw(t, "tokrefup") == 0 {
 				op.TokRef = earlierUp[rapid.IntRange(0, len(earlierUp)-1).Draw(t, "tokrefupwhich")] + 1
 				op.Async = false
+				if rapid.Bool().Draw(t, "samefirst") {
+					// the retried upload of a changed document: as long as, and beginning like, the
+					// abandoned one (its first block or two), different afterwards
+					op.Up = sc.Ops[op.TokRef-1].Up
+					op.BodyLike = op.TokRef
+					op.SameFirst = min(cs, ss) * rapid.IntRange(1, 2).Draw(t, "sameblocks")
+				}
 				sc.Ops = append(sc.Ops, pairsim.Op{Kind: "sleep", Ms: 6*sc.Link.LatencyMs + 20})
 			}
 		case "get":
